@@ -29,6 +29,13 @@ type AtCall struct {
 	C      Clause
 }
 
+// OnWrite: at every store to Type.Field inside the function (including inlined closures), C must hold
+// (evaluated just before the store, `newval` bound to the stored value).
+type OnWrite struct {
+	Type, Field string
+	C           Clause
+}
+
 type LoopSpec struct {
 	Invariants []Clause
 }
@@ -47,9 +54,11 @@ type FuncContract struct {
 	Aborts   []Clause // allowed panic conditions
 	Loops    map[int]*LoopSpec
 	AtCalls  []AtCall
+	OnWrites []OnWrite
 	Pure     bool
 	Trusted  bool
 	NoReturn bool // callee never returns (PanicSanity...)
+	NoAlloc  bool // callee returns no freshly allocated object (allocation clock not advanced at call sites)
 	NoSafety bool
 	Inline   bool
 	Lets     []LetDef
@@ -112,6 +121,7 @@ type Contracts struct {
 	Ghosts  map[string]*GhostVar
 	Files   []string
 	PurePkgs map[string]bool // packages whose functions are assumed to assign nothing (logging, formatting)
+	PurePrefixes []string    // function-key prefixes assumed to assign nothing (event firing)
 }
 
 func NewContracts() *Contracts {
@@ -486,6 +496,21 @@ func (cs *Contracts) LoadContractFile(file, pkgPath string) error {
 			}
 			ac.C = c
 			cur.AtCalls = append(cur.AtCalls, ac)
+		case "onwrite":
+			// onwrite Type.field assert EXPR
+			fs := strings.Fields(rest)
+			if len(fs) < 3 || fs[1] != "assert" {
+				return fmt.Errorf("%s:%d: onwrite Type.field assert EXPR", file, rl.line)
+			}
+			tf := strings.Split(fs[0], ".")
+			if len(tf) != 2 {
+				return fmt.Errorf("%s:%d: onwrite Type.field", file, rl.line)
+			}
+			c, err := mk(strings.TrimSpace(rest[strings.Index(rest, " assert ")+8:]))
+			if err != nil {
+				return err
+			}
+			cur.OnWrites = append(cur.OnWrites, OnWrite{Type: tf[0], Field: tf[1], C: c})
 		case "pure":
 			cur.Pure = true
 			cur.HasAssigns = true
@@ -493,6 +518,8 @@ func (cs *Contracts) LoadContractFile(file, pkgPath string) error {
 			cur.Trusted = true
 		case "noreturn":
 			cur.NoReturn = true
+		case "noalloc":
+			cur.NoAlloc = true
 		case "nosafety":
 			cur.NoSafety = true
 		case "inline":
@@ -541,6 +568,9 @@ func (cs *Contracts) LoadContractFile(file, pkgPath string) error {
 				return fmt.Errorf("%s:%d: ghost NAME SORT", file, rl.line)
 			}
 			cs.Ghosts[fs[0]] = &GhostVar{Name: fs[0], Sort: fs[1]}
+		case "pureprefix":
+			cs.PurePrefixes = append(cs.PurePrefixes, strings.TrimSpace(rest))
+			cur, curLemma, curWriters = nil, nil, nil
 		case "purepkg":
 			cs.PurePkgs[strings.TrimSpace(rest)] = true
 			cur, curLemma, curWriters = nil, nil, nil
